@@ -43,3 +43,36 @@ func CollidingHosts() (a, b string) {
 	}
 	return a, b
 }
+
+// CollidingTexts returns two different strings prefix+s+suffix and prefix+t+suffix
+// (s, t of n characters over [0-9a-z]) with equal FastHash.  It panics if there
+// are none.
+func CollidingTexts(prefix string, n int, suffix string) (a, b string) {
+	const letters = "0123456789abcdefghijklmnopqrstuvwxyz"
+	seen := map[uint32]string{}
+	buf := make([]byte, n)
+	var rec func(i int) bool
+	rec = func(i int) bool {
+		if i == n {
+			t := prefix + string(buf) + suffix
+			h := filterutil.FastHash(t)
+			if o, ok := seen[h]; ok && o != t {
+				a, b = o, t
+				return true
+			}
+			seen[h] = t
+			return false
+		}
+		for k := 0; k < len(letters); k++ {
+			buf[i] = letters[k]
+			if rec(i + 1) {
+				return true
+			}
+		}
+		return false
+	}
+	if !rec(0) {
+		panic(fmt.Sprintf("no colliding texts for prefix %q with %d free characters", prefix, n))
+	}
+	return a, b
+}
